@@ -624,9 +624,10 @@ def exec_pure(sc):
                 if kind == "start":
                     snap, acts = _helpers.initial_transition(machine)
                 elif kind == "send":
-                    before = (set(snap.state_ids), set(snap.configuration), copy.deepcopy(snap.context), snap.status, snap.output)
+                    before = (set(snap.state_ids), set(snap.configuration), copy.deepcopy(snap.context), snap.status, snap.output,
+                              copy.deepcopy(getattr(snap, "history", None)))
                     new, acts = _helpers.transition(machine, snap, _mk_event(op))
-                    after = (set(snap.state_ids), set(snap.configuration), snap.context, snap.status, snap.output)
+                    after = (set(snap.state_ids), set(snap.configuration), snap.context, snap.status, snap.output, getattr(snap, "history", None))
                     if before != after:
                         rec.rec("pure-input-mutated", i)
                     snap = new
